@@ -61,7 +61,7 @@ def budget(tier):
 
 @st.composite
 def _case(draw):
-    prog = draw(co2.programs())
+    prog = draw(co2.programs(profile={"recursion": True}))
     hist = draw(st.lists(co2.history_item(), min_size=2, max_size=24))
     uses = []
     if draw(st.integers(0, 3)) > 0:
